@@ -353,6 +353,11 @@ impl MachineAdapter for TestRunnerAdapter {
         match result {
             ExecuteResult::Running => {
                 let pc = runner.cpu().get_program_counter();
+                #[cfg(datatrash_mos_verif)]
+                crate::verif_dbg::event(
+                    "p_read",
+                    &format!("\"pc\":{},\"cyc\":{}", pc, runner.num_cycles()),
+                );
                 self.update_state(MachineRunningState::Stopped(ProgramCounter::new(
                     pc as usize,
                 )))?;
@@ -392,6 +397,11 @@ impl MachineAdapter for TestRunnerAdapter {
         match result {
             ExecuteResult::Running => {
                 let pc = runner.cpu().get_program_counter();
+                #[cfg(datatrash_mos_verif)]
+                crate::verif_dbg::event(
+                    "p_read",
+                    &format!("\"pc\":{},\"cyc\":{}", pc, runner.num_cycles()),
+                );
                 self.update_state(MachineRunningState::Stopped(ProgramCounter::new(
                     pc as usize,
                 )))?;
@@ -431,6 +441,11 @@ impl MachineAdapter for TestRunnerAdapter {
         match result {
             ExecuteResult::Running => {
                 let pc = runner.cpu().get_program_counter();
+                #[cfg(datatrash_mos_verif)]
+                crate::verif_dbg::event(
+                    "p_read",
+                    &format!("\"pc\":{},\"cyc\":{}", pc, runner.num_cycles()),
+                );
                 self.update_state(MachineRunningState::Stopped(ProgramCounter::new(
                     pc as usize,
                 )))?;
